@@ -463,6 +463,11 @@ class AioEndpoint(EndpointBase):
         self.lost = True
         self.lost_reason = exc
         self.log("connection_lost", type(exc).__name__ if exc is not None else None)
+        # a real selector transport is marked closing (_force_close / close) before connection_lost() is delivered
+        try:
+            self.transport._closing = True
+        except Exception:
+            pass
         try:
             self.proto.connection_lost(exc)
         except Exception as e:
